@@ -257,6 +257,75 @@ namespace c10
         out[0] = z.real(); out[1] = z.imag();
     }
 
+    // ---- mixed value types: compound assignment x OP= y between xcomplex objects of DIFFERENT value types (part MIXC) ----
+    // The operands travel as exact long double values (every operand type embeds exactly in x87 long double); the result
+    // is read back from x and widened exactly.  What can be compared in the operands' own types is compared here.
+    enum : unsigned
+    {
+        F_M_RHS = 2u,       // the right operand (object or storage) was modified
+        F_M_LHS_STOR = 4u,  // value-closure lhs: the storage it was copied from was written; reference lhs: storage != result
+        F_M_RVAL = 8u       // conversion from an rvalue std::complex<U> differs from the conversion from an lvalue
+    };
+    struct MIO
+    {
+        long double in[4];
+        long double out[2];
+        unsigned flags;
+    };
+    template <class T> inline bool same_rep(T x, T y) { return std::memcmp(&x, &y, sizeof(T)) == 0; }
+    inline bool same_rep(long double x, long double y) { return std::memcmp(&x, &y, 10) == 0; }   // 6 padding bytes
+
+    template <class T1, int K1, bool B1, class T2, int K2, bool B2, class Op>
+    void m_cmpd(MIO& io)
+    {
+        T1 sa = static_cast<T1>(io.in[0]), sb = static_cast<T1>(io.in[1]);
+        T2 sc = static_cast<T2>(io.in[2]), sd = static_cast<T2>(io.in[3]);
+        const T1 a0 = sa, b0 = sb;
+        const T2 c0 = sc, d0 = sd;
+        typename XK<T1, K1, B1>::type x(sa, sb);
+        typename XK<T2, K2, B2>::type y(sc, sd);
+        auto& r = Op::cmpd(x, y);
+        if (std::addressof(r) != std::addressof(x)) io.flags |= F_RETREF;
+        const T1 o0 = x.real(), o1 = x.imag();
+        io.out[0] = o0; io.out[1] = o1;
+        if (!same_rep(T2(y.real()), c0) || !same_rep(T2(y.imag()), d0) || !same_rep(sc, c0) || !same_rep(sd, d0)) io.flags |= F_M_RHS;
+        if (K1 == KR ? (!same_rep(sa, o0) || !same_rep(sb, o1)) : (!same_rep(sa, a0) || !same_rep(sb, b0))) io.flags |= F_M_LHS_STOR;
+    }
+    // the right operand arrives as a std::complex<T2>, is converted to an xcomplex over T1 (converting constructor, which
+    // rounds each part to T1 once) and then combined: x OP= xcomplex<T1>(std::complex<T2>)
+    template <class T1, bool B, class T2, class Op>
+    void m_cstd(MIO& io)
+    {
+        using X = typename XK<T1, KV, B>::type;
+        T1 sa = static_cast<T1>(io.in[0]), sb = static_cast<T1>(io.in[1]);
+        const T1 a0 = sa, b0 = sb;
+        X x(sa, sb);
+        std::complex<T2> s(static_cast<T2>(io.in[2]), static_cast<T2>(io.in[3]));
+        X y(s);                                                                                     // lvalue
+        X y2(std::complex<T2>(static_cast<T2>(io.in[2]), static_cast<T2>(io.in[3])));               // rvalue
+        if (!same_rep(T1(y.real()), T1(y2.real())) || !same_rep(T1(y.imag()), T1(y2.imag()))) io.flags |= F_M_RVAL;
+        auto& r = Op::cmpd(x, y);
+        if (std::addressof(r) != std::addressof(x)) io.flags |= F_RETREF;
+        io.out[0] = x.real(); io.out[1] = x.imag();
+        if (!same_rep(T2(s.real()), static_cast<T2>(io.in[2])) || !same_rep(T2(s.imag()), static_cast<T2>(io.in[3]))) io.flags |= F_M_RHS;
+        if (!same_rep(sa, a0) || !same_rep(sb, b0)) io.flags |= F_M_LHS_STOR;
+    }
+    // x OP= std::complex<T2> directly (no overload accepts it on the pinned tree; explored if it ever compiles)
+    template <class T1, int K1, bool B1, class T2, class Op>
+    void m_cs(MIO& io)
+    {
+        T1 sa = static_cast<T1>(io.in[0]), sb = static_cast<T1>(io.in[1]);
+        const T1 a0 = sa, b0 = sb;
+        typename XK<T1, K1, B1>::type x(sa, sb);
+        std::complex<T2> s(static_cast<T2>(io.in[2]), static_cast<T2>(io.in[3]));
+        auto& r = Op::cmpd(x, s);
+        if (std::addressof(r) != std::addressof(x)) io.flags |= F_RETREF;
+        const T1 o0 = x.real(), o1 = x.imag();
+        io.out[0] = o0; io.out[1] = o1;
+        if (!same_rep(T2(s.real()), static_cast<T2>(io.in[2])) || !same_rep(T2(s.imag()), static_cast<T2>(io.in[3]))) io.flags |= F_M_RHS;
+        if (K1 == KR ? (!same_rep(sa, o0) || !same_rep(sb, o1)) : (!same_rep(sa, a0) || !same_rep(sb, b0))) io.flags |= F_M_LHS_STOR;
+    }
+
     // operands arrive as std::complex, are converted to xcomplex, combined, and converted back
     template <class T, class Op, bool B>
     void v_std(IO<T>& io)
